@@ -200,17 +200,38 @@ func retErrorOperand(r *ssa.Return) ssa.Value {
 
 // definitelyNonNilErr: v is the result of errors.New / fmt.Errorf / a MakeInterface of a concrete value /
 // a repo call that never returns nil (not analysed: false).
-func definitelyNonNilErr(v ssa.Value) bool {
+func definitelyNonNilErr(v ssa.Value) bool { return definitelyNonNilErrDepth(v, 0) }
+
+func definitelyNonNilErrDepth(v ssa.Value, depth int) bool {
 	switch x := v.(type) {
 	case *ssa.Call:
 		if calleeIs(x, "errors", "New") || calleeIs(x, "fmt", "Errorf") {
 			return true
 		}
+		// an error constructor of the repository: a function with the one result, every return of which hands back
+		// an error that is definitely there
+		if cal := x.Call.StaticCallee(); cal != nil && cal.Blocks != nil && depth < 3 && cal.Signature.Results().Len() == 1 && isErrorType(cal.Signature.Results().At(0).Type()) {
+			n := 0
+			for _, b := range cal.Blocks {
+				rt, isR := b.Instrs[len(b.Instrs)-1].(*ssa.Return)
+				if !isR {
+					continue
+				}
+				n++
+				if len(rt.Results) != 1 || !definitelyNonNilErrDepth(rt.Results[0], depth+1) {
+					return false
+				}
+			}
+			return n > 0
+		}
 	case *ssa.MakeInterface:
 		return true
 	case *ssa.Phi:
+		if depth > 6 {
+			return false
+		}
 		for _, e := range x.Edges {
-			if !definitelyNonNilErr(e) {
+			if !definitelyNonNilErrDepth(e, depth+1) {
 				return false
 			}
 		}
